@@ -309,13 +309,28 @@ def body_special(ctx: H.BaseCtx):
     q0, q1 = numpoly.variable(2)
     extra = [("negated imaginary", -(q0 + 2j)), ("negated imaginary array", numpoly.polynomial([-(q0 * q1 + 1j), -1j * q1 - 2, (1 - 1j) * q0])), ("imaginary times -1", (q0 * 1j + 1) * -1),
              ("bool", numpoly.polynomial(numpy.array([True, False])) * 1 + (q0 > q1))] if False else [("negated imaginary", -(q0 + 2j)), ("negated imaginary array", numpoly.polynomial([-(q0 * q1 + 1j), -1j * q1 - 2, (1 - 1j) * q0])), ("imaginary times -1", (q0 * 1j + 1) * -1)]
+    sci = 2.5e-05 * q0 ** 2 + 3 * q0 * q1 - 0.5 * q1 + 7
+    extra += [("exponent-notation floats", sci), ("exponent-notation floats array", numpoly.polynomial([sci, 4e+20 * q0 - 1e-07, q1 * 1e-300 + 2e+100 * q0 * q1 ** 2 - 3.5]))]
     polys = [(l, p) for l, p in SP.zoo((2,)) if "non-finite" not in l and "complex64" not in l and "float32" not in l] + extra
     points = [{"q0": 1.3, "q1": -0.7}, {"q0": -2.0, "q1": 0.25}]
     with numpy.errstate(all="ignore"):
         for label, p in polys:
-            for kind, text in (("str", str(p)), ("repr", repr(p)), ("array_str", numpoly.array_str(p))):
+            import re as _re
+
+            widths = [(k, f) for w in (20, 30, 45) for k, f in (("array_repr(max_line_width=%d)" % w, lambda w=w: numpoly.array_repr(p, max_line_width=w)), ("numpy.array_repr(p, %d)" % w, lambda w=w: numpy.array_repr(p, w)),
+                                                               ("array_str(max_line_width=%d)" % w, lambda w=w: numpoly.array_str(p, max_line_width=w)))]
+            variants = [("str", str(p)), ("repr", repr(p)), ("array_str", numpoly.array_str(p))]
+            for k, f in widths:
+                try:
+                    variants.append((k, f()))
+                except Exception as e:
+                    ctx.unexpected_exception(e, k)
+            for kind, text in variants:
+                # (a narrow width may break lines: between elements, or inside an element -- where python's own reader needs the break gone)
+                text = _re.sub(r",\n\s*", ", ", text) if "repr" in kind else text
+                text = _re.sub(r"\n\s*", "" if not p.shape else " ", text)
                 body_text, sep = text, " "
-                if kind == "repr":
+                if "repr" in kind:
                     if not (text.startswith("polynomial(") and text.endswith(")")):
                         ctx.fail("format", "%s of a %s polynomial is %r" % (kind, label, text[:60]))
                         continue
